@@ -24,13 +24,15 @@ def c09_prebuild(stage, pid, tier):
 
 
 def SPEC(tier):
-    cfgs = [('RH', []), ('LH', ['-DGLM_FORCE_LEFT_HANDED', '-DC09_EXPECT_LH'])]
+    # handedness must be read from the LH bit alone: the depth-range macro is combined with both handedness settings
+    cfgs = [('RH', []), ('LH', ['-DGLM_FORCE_LEFT_HANDED', '-DC09_EXPECT_LH']),
+            ('LH_ZO', ['-DGLM_FORCE_LEFT_HANDED', '-DGLM_FORCE_DEPTH_ZERO_TO_ONE', '-DC09_EXPECT_LH']), ('RH_ZO', ['-DGLM_FORCE_DEPTH_ZERO_TO_ONE'])]
     stages = []
     for name, flags in cfgs:
         full = name == 'RH' or tier == 'thorough'   # handedness only reaches lookAt: the quick LH build carries the lookAt/decompose file alone
         # thorough: the LH build repeats every target at 0.4 of the RH case counts (only lookAt can differ between the two builds)
         st = Stage(name, [SRC_MAIN, SRC_XFORM] if full else [SRC_MAIN], flags=flags + ['-DC09_CFG="%s"' % name], only=None if full else 'lookAt',
-                   scale=0.4 if (name == 'LH' and tier == 'thorough') else 1.0)
+                   scale=0.4 if (name != 'RH' and tier == 'thorough') else 1.0)
         st.prebuild = c09_prebuild
         stages.append(st)
     return {'stages': stages,
